@@ -261,10 +261,10 @@ structure InvB (x : Int) (st : DState) : Prop where
   mapGe : ∀ e ∈ st.map, 2 ≤ e.1
   mapExp : ∀ e ∈ st.map, 1 ≤ e.2
 
-theorem invB_step (ecmFn : Int → Nat → Nat → Stream → EcmRes) (prof : Profile) (b : Nat) (x : Int)
+theorem invB_step (ecmFn : Int → Nat → Nat → Stream → EcmRes) (prof : Profile) (bsel : Int → Option Nat) (x : Int)
     (hE : ∀ now b1 b2 s fac c s', 1 < now → ecmFn now b1 b2 s = .found fac c s' → fac ∣ now ∧ 0 < fac)
     (hx : 1 ≤ x) (hnw : NoWrap prof x) (st st' : DState) (hinv : InvB x st)
-    (hs : Step ecmFn prof b st st') : InvB x st' := by
+    (hs : Step ecmFn prof bsel st st') : InvB x st' := by
   obtain ⟨hval, hpos, hmult, hge, hexp⟩ := hinv
   -- facts shared by all cases, from `stack = dropLast ++ [(now, mult)]`
   have key : ∀ now mult, st.stack.getLast? = some (now, mult) →
@@ -346,13 +346,13 @@ theorem invB_step (ecmFn : Int → Nat → Nat → Stream → EcmRes) (prof : Pr
         subst he
         simp only [hm']
         exact Nat.mul_pos hmult1 (by omega)
-  | retry now mult s base k b2 fac nowcount s' count h hgt hp hpp hk hb2 hf hc h1 =>
+  | retry now mult s base k b b2 fac nowcount s' count h hgt hp hpp hk hb hb2 hf hc h1 =>
     obtain ⟨hstack, _, _, _, _, _⟩ := key now mult h
     refine ⟨?_, ?_, ?_, hge, hexp⟩
     · simp only; rw [← hstack]; exact hval
     · simp only; rw [← hstack]; exact hpos
     · simp only; rw [← hstack]; exact hmult
-  | split now mult s base k b2 fac nowcount s' count h hgt hp hpp hk hb2 hf hc h1 =>
+  | split now mult s base k b b2 fac nowcount s' count h hgt hp hpp hk hb hb2 hf hc h1 =>
     obtain ⟨_, hposD, hmultD, hnow1, hmult1, hv⟩ := key now mult h
     obtain ⟨hdvd, hfacpos⟩ := hE _ _ _ _ _ _ _ hgt hf
     have hmul : fac * Int.tdiv now fac = now := Int.mul_tdiv_cancel' hdvd
@@ -391,9 +391,9 @@ structure InvA (s0 : Stream) (st : DState) : Prop where
   suffix : st.stream <:+ s0
   accepted : ∀ e ∈ st.map, Accepted s0 e.1
 
-theorem invA_step (ecmFn : Int → Nat → Nat → Stream → EcmRes) (prof : Profile) (b : Nat) (s0 : Stream)
+theorem invA_step (ecmFn : Int → Nat → Nat → Stream → EcmRes) (prof : Profile) (bsel : Int → Option Nat) (s0 : Stream)
     (hS : ∀ now b1 b2 s fac c s', ecmFn now b1 b2 s = .found fac c s' → s' <:+ s)
-    (st st' : DState) (hinv : InvA s0 st) (hs : Step ecmFn prof b st st') : InvA s0 st' := by
+    (st st' : DState) (hinv : InvA s0 st) (hs : Step ecmFn prof bsel st st') : InvA s0 st' := by
   obtain ⟨hkeys, hsuf, hacc⟩ := hinv
   cases hs with
   | drop now mult h hle => exact ⟨hkeys, hsuf, hacc⟩
@@ -426,9 +426,9 @@ theorem invA_step (ecmFn : Int → Nat → Nat → Stream → EcmRes) (prof : Pr
           rw [hk]; exact hnowacc
   | power now mult s base k m h hgt hp hpp hk hm =>
     exact ⟨hkeys, (isPrimeS_suffix _ _ _ _ hp).trans hsuf, hacc⟩
-  | retry now mult s base k b2 fac nowcount s' count h hgt hp hpp hk hb2 hf hc h1 =>
+  | retry now mult s base k b b2 fac nowcount s' count h hgt hp hpp hk hb hb2 hf hc h1 =>
     exact ⟨hkeys, ((hS _ _ _ _ _ _ _ hf).trans (isPrimeS_suffix _ _ _ _ hp)).trans hsuf, hacc⟩
-  | split now mult s base k b2 fac nowcount s' count h hgt hp hpp hk hb2 hf hc h1 =>
+  | split now mult s base k b b2 fac nowcount s' count h hgt hp hpp hk hb hb2 hf hc h1 =>
     exact ⟨hkeys, ((hS _ _ _ _ _ _ _ hf).trans (isPrimeS_suffix _ _ _ _ hp)).trans hsuf, hacc⟩
 
 /-! ## consequences for `factorizeWith` -/
@@ -436,9 +436,9 @@ theorem invA_step (ecmFn : Int → Nat → Nat → Stream → EcmRes) (prof : Pr
 /-- structural facts about a returned result (any profile) -/
 theorem factorizeWith_structure (ecmFn : Int → Nat → Nat → Stream → EcmRes)
     (hS : ∀ now b1 b2 s fac c s', ecmFn now b1 b2 s = .found fac c s' → s' <:+ s)
-    (x : Int) (b : Nat) (stream : Stream) (fuel : Nat) (prof : Profile)
+    (x : Int) (bsel : Int → Option Nat) (stream : Stream) (fuel : Nat) (prof : Profile)
     (result : List (Int × Nat)) (count : Nat) (rest : Stream)
-    (h : factorizeWith ecmFn x b stream fuel prof = .ok result count rest) :
+    (h : factorizeWith ecmFn x bsel stream fuel prof = .ok result count rest) :
     1 ≤ x ∧ result.Pairwise (fun a b => a.1 < b.1) ∧ rest <:+ stream ∧
       ∀ pe ∈ result, Accepted stream pe.1 := by
   unfold factorizeWith at h
@@ -447,7 +447,7 @@ theorem factorizeWith_structure (ecmFn : Int → Nat → Nat → Stream → EcmR
   · rename_i hx
     obtain ⟨fin, hr, _, hres, _, hrest⟩ := driverLoop_ok_run _ _ _ _ _ _ _ _ h
     have hinv : InvA stream fin :=
-      run_invariant (InvA stream) (fun st st' hi hs => invA_step ecmFn prof b stream hS st st' hi hs)
+      run_invariant (InvA stream) (fun st st' hi hs => invA_step ecmFn prof bsel stream hS st st' hi hs)
         ⟨by simp, List.suffix_refl _, by simp⟩ hr
     refine ⟨by omega, ?_, ?_, ?_⟩
     · rw [hres]; exact sortPairs_pairwise _ hinv.keys
@@ -459,9 +459,9 @@ theorem factorizeWith_structure (ecmFn : Int → Nat → Nat → Stream → EcmR
 /-- arithmetic facts about a returned result (no wrapped multiplicity) -/
 theorem factorizeWith_arith (ecmFn : Int → Nat → Nat → Stream → EcmRes)
     (hE : ∀ now b1 b2 s fac c s', 1 < now → ecmFn now b1 b2 s = .found fac c s' → fac ∣ now ∧ 0 < fac)
-    (x : Int) (b : Nat) (stream : Stream) (fuel : Nat) (prof : Profile) (hnw : NoWrap prof x)
+    (x : Int) (bsel : Int → Option Nat) (stream : Stream) (fuel : Nat) (prof : Profile) (hnw : NoWrap prof x)
     (result : List (Int × Nat)) (count : Nat) (rest : Stream)
-    (h : factorizeWith ecmFn x b stream fuel prof = .ok result count rest) :
+    (h : factorizeWith ecmFn x bsel stream fuel prof = .ok result count rest) :
     prodPairs result = x ∧ ∀ pe ∈ result, 2 ≤ pe.1 ∧ 1 ≤ pe.2 := by
   unfold factorizeWith at h
   split at h
@@ -470,7 +470,7 @@ theorem factorizeWith_arith (ecmFn : Int → Nat → Nat → Stream → EcmRes)
     have hx1 : 1 ≤ x := by omega
     obtain ⟨fin, hr, hstack, hres, _, _⟩ := driverLoop_ok_run _ _ _ _ _ _ _ _ h
     have hinv : InvB x fin :=
-      run_invariant (InvB x) (fun st st' hi hs => invB_step ecmFn prof b x hE hx1 hnw st st' hi hs)
+      run_invariant (InvB x) (fun st st' hi hs => invB_step ecmFn prof bsel x hE hx1 hnw st st' hi hs)
         ⟨by simp [prodPairs], by intro e he; simp at he; subst he; exact hx1,
           by intro e he; simp at he; subst he; exact le_refl 1, by simp, by simp⟩ hr
     refine ⟨?_, ?_⟩
@@ -481,9 +481,9 @@ theorem factorizeWith_arith (ecmFn : Int → Nat → Nat → Stream → EcmRes)
       exact ⟨hinv.mapGe pe this, hinv.mapExp pe this⟩
 
 /-- `x = 1`: the stack entry (1, 1) is dropped and the result is empty (one iteration suffices) -/
-theorem factorizeWith_one (ecmFn : Int → Nat → Nat → Stream → EcmRes) (b : Nat) (stream : Stream)
+theorem factorizeWith_one (ecmFn : Int → Nat → Nat → Stream → EcmRes) (bsel : Int → Option Nat) (stream : Stream)
     (fuel : Nat) (prof : Profile) :
-    factorizeWith ecmFn 1 b stream (fuel + 1) prof = .ok [] 0 stream := by
+    factorizeWith ecmFn 1 bsel stream (fuel + 1) prof = .ok [] 0 stream := by
   unfold factorizeWith
   simp only [show ¬ ((1 : Int) ≤ 0) by omega, ↓reduceIte]
   unfold driverLoop
@@ -493,9 +493,9 @@ theorem factorizeWith_one (ecmFn : Int → Nat → Nat → Stream → EcmRes) (b
   | succ f => simp [driverLoop, sortPairs]
 
 /-- `x ≤ 0`: the documented `panic!("x <= 0")` -/
-theorem factorizeWith_nonpos (ecmFn : Int → Nat → Nat → Stream → EcmRes) (x : Int) (hx : x ≤ 0) (b : Nat)
+theorem factorizeWith_nonpos (ecmFn : Int → Nat → Nat → Stream → EcmRes) (x : Int) (hx : x ≤ 0) (bsel : Int → Option Nat)
     (stream : Stream) (fuel : Nat) (prof : Profile) :
-    factorizeWith ecmFn x b stream fuel prof = .panic "other" := by
+    factorizeWith ecmFn x bsel stream fuel prof = .panic "other" := by
   unfold factorizeWith; simp [hx]
 
 /-! ## the two instances -/
